@@ -1,5 +1,9 @@
 import Pw.Lemmas.Progress
 import Pw.Model.Serve
+import Pw.Props.C08
+import Pw.Props.C14
+import Pw.Props.C18
+import Pw.Props.C20
 /-
   C04 — no client input can crash, wedge or balloon the server.
   Part 1 (this file): for EVERY configuration, EVERY handler program and EVERY input the model of
@@ -760,6 +764,15 @@ theorem C04_ends (cfg : Config) (h : Handlers) (inp tin : Bytes) (ht : cfg.tail 
   | closed => rfl
   | waiting => exact absurd hc h2
   | crashed => exact absurd hc h1
+
+/-! ### Part 3: nothing fabricated reaches a callback, allocation of the message buffer
+
+  Proved where the decoders live and collected here: `Pw.Props.C08.C08_sound` (an accepted Bind body
+  IS the encoding of the parameters handed to the statement function), `Pw.Props.C14.C14_count_mismatch`
+  and `C14_truncated_count` (a binary COPY row with a lying field count, or a stream ending inside a
+  row, is an error), `Pw.Props.C14.C14_chunking` (the rows do not depend on the CopyData cuts),
+  `Pw.Props.C20.C20_bounded` (ParseParameters is total and capped), `Pw.Props.C18.C18_alloc_bound`
+  (the message buffer is sized by min(declared, limit)). -/
 
 /-- non-vacuity: a client that sends a startup packet, half a Query message and then closes its side -/
 example :
